@@ -28,7 +28,7 @@ BOUND = {
     "thorough": "27 types x all 512 subsets x 8 values x 2 alias spellings x 3 contexts (order rotated)",
 }
 # as-built additions to the bound (kept next to BOUND so that the evidence reports them)
-BOUND = {k: v + "; plus: " + 'selects inside a table-list group (row under test first / second; generated helper nodes carry no row logic); 11 columns (noAppErrorString and a constraint_message::fr language column added); 6 further range / image / geopoint parameter spellings' for k, v in BOUND.items()}
+BOUND = {k: v + "; plus: " + 'legacy loops over 1-3 choices: %(name)s / %(label)s placeholders in subsets <=3 (thorough <=4) of 7 logic cells, filled in per copy; selects inside a table-list group (row under test first / second; generated helper nodes carry no row logic); 11 columns (noAppErrorString and a constraint_message::fr language column added); 6 further range / image / geopoint parameter spellings' for k, v in BOUND.items()}
 
 NSP = {"jr": O.JR, "odk": O.ODK, "orx": O.ORX}
 
@@ -82,7 +82,63 @@ CONVERTIBLE = {"readonly", "required", "relevant", "constraint", "calculate"}
 CHOICES = [{"list_name": "c", "name": "x", "label": "X"}, {"list_name": "c", "name": "y", "label": "Y"}]
 
 
+# ---- legacy loops: every child row is copied once per choice, its %(name)s / %(label)s placeholders filled in per copy
+LOOP_CELLS = {
+    "relevant": ("${o} = '%(name)s'", "relevant", "{o} = '{name}'"),
+    "constraint": (". != '%(label)s'", "constraint", ". != '{label}'"),
+    "calculation": ("concat('%(name)s', ${o})", "calculate", "concat('{name}', {o})"),
+    "constraint_message": ("msg %(name)s", "jr:constraintMsg", "msg {name}"),
+    "required": ("'%(name)s' = 'x'", "required", "'{name}' = 'x'"),
+    "bind::foo": ("%(name)s-z", "foo", "{name}-z"),
+    "read_only": ("yes", "readonly", "true()"),
+}
+LOOP_LISTS = [[("x", "X"), ("y", "Y")], [("x", "X"), ("y", "Y"), ("z9", "Z 9")], [("only", "Only")]]
+
+
+def gen_loop(tier):
+    keys = list(LOOP_CELLS)
+    for li in range(len(LOOP_LISTS)):
+        for r in (1, 2, 3) if tier == "quick" else (1, 2, 3, 4):
+            for sub in itertools.combinations(keys, r):
+                for second in (False, True):
+                    yield {"loop": {"list": li, "cols": list(sub), "second": second}, "ty": 0, "ctx": "loop", "cols": list(sub), "v": 0, "a": 0, "o": 0}
+
+
+def check_loop(case):
+    lp = case["loop"]
+    choices = [{"list_name": "c", "name": n, "label": l} for n, l in LOOP_LISTS[lp["list"]]]
+    row = {"type": "text", "name": "t", "label": "T"}
+    for c in lp["cols"]:
+        row[c] = LOOP_CELLS[c][0]
+    other = {"type": "integer", "name": "u", "label": "U", "relevant": "'%(name)s' != ''"}
+    body = [row, other] if not lp["second"] else [other, row]
+    wb = {"survey": [{"type": "integer", "name": "o", "label": "O"}, {"type": "begin loop over c", "name": "w", "label": "W"}, *body, {"type": "end loop"}], "choices": choices}
+    out = run_convert(wb)
+    if out.kind != "ok":
+        return {"outcome": out.kind, "nt": False, "viol": [], "tr": 5, "unexp": out.kind == "reject", "why": (out.msg or "")[:200]}
+    obs = O.Obs(out.xform)
+    bm = obs.bind_map()
+    viol = []
+    for n, l in LOOP_LISTS[lp["list"]]:
+        exp = {"type": "string"}
+        for c in lp["cols"]:
+            _, attr, tmpl = LOOP_CELLS[c]
+            exp[attr] = tmpl.format(o="/data/o", name=n, label=l)
+        for who, name, want in (("own", "t", exp), ("sibling", "u", {"type": "int", "relevant": f"'{n}' != ''"})):
+            bs = bm.get(f"/data/w/{n}/{name}", [])
+            if len(bs) != 1:
+                viol.append((f"loop-copy-bind-count:{who}", f"/data/w/{n}/{name}: {len(bs)} binds"))
+                continue
+            sq = lambda v: norm_ws(v).replace(" )", ")").replace("( ", "(")  # noqa: E731 - spaces around a substituted path
+            got = {O.local(k) if k.startswith("{") else k: sq(v) for k, v in bs[0].attrib.items() if k != "nodeset"}
+            wantq = {k.split(":")[-1]: sq(v) for k, v in want.items()}
+            if got != wantq:
+                viol.append((f"loop-copy-bind:{who}:{'+'.join(sorted(k for k in set(got) | set(wantq) if got.get(k) != wantq.get(k)))}", f"copy for choice {n!r}: got {got} want {wantq}"))
+    return {"outcome": "ok", "nt": not viol, "viol": viol[:3], "tr": 5}
+
+
 def blocks(tier):
+    yield ("loop",)
     for ti in range(len(TYPE_CELLS)):
         for ctx in ("top", "group", "repeat"):
             yield (ti, ctx)
@@ -94,6 +150,9 @@ def blocks(tier):
 
 
 def expand(block, tier):
+    if block[0] == "loop":
+        yield from gen_loop(tier)
+        return
     ti, ctx = block
     kmax = 3 if tier == "quick" else len(KEYS)
     ty = TYPE_CELLS[ti]
@@ -209,6 +268,8 @@ def expected_bind(case, cells):
 
 
 def check_one(case):
+    if case.get("loop"):
+        return check_loop(case)
     wb, cells = build(case)
     out = run_convert(wb)
     ntr = len(wb["survey"])
